@@ -71,8 +71,11 @@ def compile_many(args: list[dict]) -> list[dict]:
 def compile_world(arg: dict) -> dict:
     """arg: {"files": {relative name: text | {"bytes": [..]} | {"dir": true}}, "root": name, "lookup": [relative dirs]}
     The files are written below a fresh directory in /tmp, the root is compiled from there."""
-    d = tempfile.mkdtemp(prefix="c10w_")
+    d = os.path.realpath(tempfile.mkdtemp(prefix="c10w_"))
     try:
+        # "@ROOT@" in file texts and lookup paths stands for the directory the world is written to (absolute imports)
+        arg = dict(arg, files={n: (c.replace("@ROOT@", d) if isinstance(c, str) else c) for n, c in arg["files"].items()},
+                   lookup=[lp.replace("@ROOT@", d) for lp in arg.get("lookup", [])])
         for name, content in arg["files"].items():
             p = os.path.join(d, name)
             os.makedirs(os.path.dirname(p), exist_ok=True)
